@@ -42,6 +42,8 @@ ObsReplacement ==
      IF Direct(pool, t) = {} THEN ev = {}
      ELSE ReplacementSound(pool, delta, t, ev) /\ PostPool \cap ev = {}
 ObsRejectNoEvict == (Act[1] = "submit" /\ ~Line.res.ok /\ Line.res.why # "mempool full") => pool \subseteq PostPool
+\* ---- C28: what passes the standard script checks passes the consensus script checks (ConsensusScriptChecks never fails)
+ObsPolicyImpliesConsensus == Act[1] \in {"submit", "test"} => Line.res.why # "consensus-script-failed"
 \* ---- C28: a test-accept changes nothing
 ObsTestPure == Act[1] = "test" => (Line.res.pure /\ PostPool = pool /\ PostDelta = delta)
 ====
